@@ -148,6 +148,12 @@ def run(ctx):
     for i in range(18 if ctx.quick else 150):
         kind = rng.choice(["dna", "rna", "protein"])
         recs = gen.family(rng, kind, rng.randint(2, 9), rng.choice([10, 55, 60, 118, 130, 300]), sub=0.1, indel=0.05)
+        if kind != "protein" and i % 4 == 2:
+            # masked / unresolved bases: 10..40 % of the residues are N (upper or lower case), nothing but A C G T U N otherwise -- nucleic acid by
+            # the letters alone, whatever the share of N
+            fr = rng.choice([0.1, 0.15, 0.2, 0.4])
+            ncase = rng.choice(["N", "N", "n", "Nn"])
+            recs = [(n_, "".join(rng.choice(ncase) if rng.random() < fr else (ch if ch.upper() in "ACGTU" else "N") for ch in q)) for n_, q in recs]
         t = rng.choice([3, 4, 5]) if kind == "protein" else rng.choice([0, 1, 2, 5])
         t = gen.fit_type(t, kind, recs)
         if i % 3 == 1 and len(recs) >= 3:
@@ -170,6 +176,10 @@ def run(ctx):
             fails.append(("output of a real run is not parseable as %s: %s" % (c.fmt, ex), dict(case=c.describe(), file=c.outtext[:3000])))
             continue
         if c.kv["biotype"] != (0 if c.protein else 1):
+            if not c.protein and all(ch in "ACGTUNacgtun" for _, q in c.records for ch in q) and c.fmt == "msf":
+                fails.append(("MSF file of an input made of A C G T U N only is labelled %r (molecule type: nucleic acid expected)" % c.outtext.split("\n")[0][:40],
+                              dict(case=c.describe(), file=c.outtext[:1500])))
+                continue
             ctx.count("skipped_misdetected")
             continue
         why = check_file(c.outtext, c.fmt, rows, c.protein) or gen.integrity(c.records, rows)
